@@ -94,7 +94,7 @@ def run_path(kernel, params, prefix, vals, opts, trace=False):
                 res['status'] = 'oom'
                 res['oom'] = 'path condition unknown'
             return res, c
-        m0 = c.solver.model()
+        m0 = c.model()
         inputs0 = _model_inputs(c, m0)
         if exc_info is not None:
             res['cex'].append(dict(label='exception:' + exc_info[0], inputs=inputs0, detail=exc_info[1], tb=exc_info[2]))
@@ -121,7 +121,7 @@ def run_path(kernel, params, prefix, vals, opts, trace=False):
             if r == 'unsat':
                 res['discharged'] += 1
             elif r == 'sat':
-                m = c.solver.model()
+                m = c.model()
                 res['cex'].append(dict(label=label, inputs=_model_inputs(c, m)))
             else:
                 res['unknown'].append(label)
